@@ -358,6 +358,48 @@ def concurrent(fc: int, p1: int, t1: int) -> str:
     return ""
 
 
+class _TickClock:
+    """time_ns stand-in: every reading is 200 ms later than the one before (hits read the clock once, in thread order)."""
+
+    def __init__(self):
+        self.t = 1_000_000_000
+
+    def __call__(self):
+        self.t += 200_000_000
+        return self.t
+
+
+def concurrent_period(p1: int, t1: int, nth: int) -> str:
+    """
+    Threads reach the same tracepoint 200 ms apart (fire_count unlimited, fire_period 1000 ms), each on the
+    statement-stepped real handler; one pre-emption at a SYMBOLIC step: whichever way the hits overlap - also when the
+    hit that read the clock FIRST is the one that checks LAST - no two collections are closer than the period.
+    PRE: 0 <= p1 <= 60 and 0 <= t1 <= 2 and 2 <= nth <= 3
+    POST: _ == ""
+    """
+    world.begin_path()
+    from vlib.stepper import Sched
+    from deep.api.tracepoint.trigger import build_trigger
+    t1, nth = world.realize(t1), world.realize(nth)
+    w = World(clock=_TickClock())
+    w.install([build_trigger("tp1", "f.py", 7, {"fire_count": "-1", "fire_period": "1000", "frame_type": "no_frame"}, [], [])])
+    g = _stepped_trace()
+    sched = Sched(preempt=[(p1, t1)], picks=[])
+
+    def hit(i):
+        frame = FakeFrame("/app/f.py", "fn", 7, {"x": i})
+        yield from g(w.handler, frame, "line", None)
+    for i in range(nth):
+        sched.spawn("t%d" % i, hit(i))
+    sched.run()
+    world.reached()
+    if len(w.push.snapshots) > 1:
+        return "C04:concurrent:two-collections-within-fire_period"
+    if len(w.push.snapshots) < 1:
+        return "C04:concurrent:permitted-hit-lost"
+    return ""
+
+
 # ---- sensitivity twins: in-memory mutations of the anchored kernel (repo untouched) -------------------------------
 def _mut_fire_not_counted():
     from deep.api.tracepoint.tracepoint_config import TracepointExecutionStats
@@ -382,7 +424,23 @@ def _mut_period_le():
     LocationAction.can_trigger = can_trigger
 
 
-MUTANTS = {"fire_not_counted": _mut_fire_not_counted, "period_le": _mut_period_le}
+def _mut_period_sign():
+    """A hit whose timestamp is older than the recorded last fire skips the period check."""
+    from deep.api.tracepoint.trigger import LocationAction
+
+    def can_trigger(self, ts):
+        st = self._LocationAction__stats
+        if self.fire_count != -1 and self.fire_count <= st.fire_count:
+            return False
+        if not self._LocationAction__window.in_window(ts):
+            return False
+        if st.last_fire != 0 and 0 <= ts - st.last_fire < self.fire_period * 1000000:
+            return False
+        return True
+    LocationAction.can_trigger = can_trigger
+
+
+MUTANTS = {"period_sign": _mut_period_sign, "fire_not_counted": _mut_fire_not_counted, "period_le": _mut_period_le}
 
 CONDITIONS = [
     dict(fn="seq_built", cubes={"quick": ["k == 1", "k == 2", "k == 3"], "thorough": ["k == 1", "k == 2", "k == 3", "k == 4"]},
@@ -402,6 +460,9 @@ CONDITIONS = [
     dict(fn="concurrent", cubes={"quick": ["fc == 1 and t1 == 1 and p1 <= 30", "fc == 1 and t1 == 1 and p1 > 30"], "thorough": ["fc == %d and t1 == %d" % (a, b) for a in (1, 2) for b in (0, 1)]},
          twins=["reach", "mutant:fire_not_counted@fc == 1 and t1 == 1 and p1 <= 30"],
          bounds="3 threads hitting one tracepoint (fire_count 1-2), statement-stepped real handler, one pre-emption at a symbolic step"),
+    dict(fn="concurrent_period", cubes={"quick": ["nth == 2 and t1 == 1", "nth == 3 and t1 == 2"], "thorough": ["nth == %d and t1 == %d" % (a, b) for a in (2, 3) for b in (0, 1, 2)]},
+         twins=["reach", "mutant:period_sign@nth == 2 and t1 == 1"],
+         bounds="2-3 threads 200 ms apart on one tracepoint (fire_count unlimited, fire_period 1000 ms), statement-stepped real handler, one pre-emption at a symbolic step (0..60)"),
     dict(fn="step", cubes={"quick": [""], "thorough": [""]}, twins=["reach", "mutant:fire_not_counted", "mutant:period_le"],
          bounds="one hit from an arbitrary limiter state (inductive step: histories of any length)"),
 ]
